@@ -45,14 +45,14 @@ def check(chk, repo):
     if not outer or outer[-1].kind != "for":
         raise AnalysisError("SupervisedOPF.predict: the scan is not inside a per-sample for loop")
     per = outer[-1]
-    i = ("iter", per.domain, per.lid)
-    Q = count_of(per.domain[2][-1]) if per.domain[0] == "call" and per.domain[1] == ("builtin", "range") else None
-    okq = Q is not None and Q[0] == "new" and len(per.domain[2]) == 1
+    from ..schema import node_loop
+    nlp = node_loop(per)
+    okq = nlp is not None and nlp[0][0] == "new"
     rep.fn("SCAN-queries", fn, "per-sample loop visits every query node", okq,
            f"outer loop domain is '{show(per.domain)}'", line=per.line)
     if not okq:
         return
-    x = ("idx", ("attr", Q, "nodes"), i)
+    Q, i, x = nlp
     pos = position_vars(li)
     rep.fn("SCAN-position", fn, "one position variable advances by exactly 1 per iteration, unconditionally",
            len(pos) == 1, f"position variables found: {sorted(pos)}", line=li.line)
